@@ -75,6 +75,37 @@ class C04(Spec):
                 self.expect[q] = pcases
                 cases.append(q)
                 cases.extend(pcases)
+        # abandonment at EVERY byte position: the first message is cut at c, the limit is c, so the
+        # next read is refused (413 path, reset) whatever parsing stage byte c falls in
+        firsts = [b"POST /c HTTP/1.1\r\nHost: h\r\nTransfer-Encoding: chunked\r\n\r\n10\r\n0123456789abcdef\r\n3\r\nxyz\r\n0\r\n\r\n",
+                  b"POST /l?k=v&q HTTP/1.1\r\nCookie: a=1; b=2\r\nContent-Length: 20\r\nX-A: b\r\n\r\n01234567890123456789",
+                  b"GET /g?x=1 HTTP/1.0\r\nHost: q\r\nCookie: z=9\r\n\r\n"]
+        seconds = [b"POST /second HTTP/1.1\r\nHost: g\r\nTransfer-Encoding: chunked\r\n\r\n5\r\nhello\r\n6\r\n-world\r\n0\r\n\r\n",
+                   b"PUT /s HTTP/1.1\r\nContent-Length: 11\r\n\r\nhello-world",
+                   b"GET /n HTTP/1.1\r\n\r\n"]
+        step = 1 if tier != "quick" else 1
+        for f in firsts:
+            for c in range(1, len(f), step):
+                for s2 in seconds:
+                    cut2 = rng.randrange(1, len(s2))
+                    segs2 = [s2] if rng.random() < 0.5 else [s2[:cut2], s2[cut2:]]
+                    # the limit admits the first c bytes (and the whole second message) but not the first message
+                    maxsz = max(c, len(s2))
+                    if maxsz >= len(f):
+                        continue
+                    first_segs = [f[:c], f[c:]]
+                    q = "Q R %d %s | %s" % (maxsz, " ".join(pv.hexs(x) for x in first_segs), " ".join(pv.hexs(x) for x in segs2))
+                    pcs = [G.case_line("P", "R", maxsz, first_segs), G.case_line("P", "R", maxsz, segs2)]
+                    self.expect[q] = pcs
+                    cases.append(q)
+                    cases.extend(pcs)
+                    # a third message after an intermediate bodyless one
+                    if rng.random() < 0.3:
+                        mid = seconds[2]
+                        q3 = "Q R %d %s | %s | %s" % (maxsz, " ".join(pv.hexs(x) for x in first_segs), pv.hexs(mid), " ".join(pv.hexs(x) for x in segs2))
+                        self.expect[q3] = [pcs[0], G.case_line("P", "R", maxsz, [mid]), pcs[1]]
+                        cases.append(q3)
+                        cases.append(G.case_line("P", "R", maxsz, [mid]))
         return cases
 
     def oracle(self, case, impl):
